@@ -218,6 +218,24 @@ def pibas_cfg(salt):
     return c
 
 
+def parse_server_frames(data):
+    """decode unmasked, uncompressed server->client websocket frames: list of (opcode, payload)"""
+    out, i = [], 0
+    while i + 2 <= len(data):
+        b0, b1 = data[i], data[i + 1]
+        if b0 & 0x70 or b1 & 0x80:      # RSV bits (compression) or masked: not ours to decode
+            return None
+        ln = b1 & 0x7f
+        i += 2
+        if ln == 126:
+            ln = int.from_bytes(data[i:i + 2], 'big'); i += 2
+        elif ln == 127:
+            ln = int.from_bytes(data[i:i + 8], 'big'); i += 8
+        out.append((b0 & 0x0f, data[i:i + ln]))
+        i += ln
+    return out
+
+
 class Fixture:
     """two configurations differing in salt, one key, two indexes of two different databases, a token whose answer
     differs between them"""
@@ -227,6 +245,7 @@ class Fixture:
         det.seed_case(seed, 'fe-fixture')
         g = det.rng(seed, 'fe-fixture')
         self.c1, self.c2 = pibas_cfg('aa' * 8), pibas_cfg('bb' * 8)
+        self.cfgs = [pibas_cfg('%02x' % (0xa0 + i) * 8) for i in range(5)]
         L = schemes.load_sse_module('CJJ14.PiBas')
         self.L = L
         sch = L.SSEScheme(self.c1)
@@ -236,6 +255,8 @@ class Fixture:
         self.db2 = {self.kw: [g.randbytes(8) for _ in range(2)], b'third': [g.randbytes(8) for _ in range(2)]}
         self.e1 = sch.EDBSetup(self.key, self.db1).serialize()
         self.e2 = sch.EDBSetup(self.key, self.db2).serialize()
+        self.dbs = [{self.kw: [g.randbytes(8) for _ in range(1 + i % 3)], b'x%d' % i: [g.randbytes(8)]} for i in range(5)]
+        self.edbs = [sch.EDBSetup(self.key, d).serialize() for d in self.dbs]
         self.tok = sch.TokenGen(self.key, self.kw).serialize()
         self.tok_digest = hashlib.sha256(self.tok).digest()
         self.cfgobj = sch.config
